@@ -1,5 +1,6 @@
 (* C12 driver.  (suffix 4 on an op = the same on the FIX44 schema)
    case:  "T <table> <lo> <hi>"   every tag lo..hi against one field-trait table (hash-array find)
+          "TS <fnum:pos:comp:traits,...> <lo> <hi>"   the same against a synthetic trait table built from the case
           "F <lo> <hi>"           every tag lo..hi against F8MetaCntx::find_be (_flu) and _be (GeneratedTable)
           "M <hex>..."            msgtype strings against _bme (GeneratedTable, strcmp)
           "RF <hex>..." / "RM <hex>..."   reverse name lookups (fields / messages)
@@ -24,10 +25,13 @@ let base_op s = let n = String.length s in if n > 1 && s.[n-1] = '4' then String
 let zeq = Z.eqb
 
 (* ---------- trait tables ---------- *)
-let trait_line lo hi impl =
+let trait_line ?tab lo hi impl =
   let f = kv_fields impl in
+  (* schema tables are read from the implementation's dump; a synthetic table (TS) is given by the case and the
+     implementation's dump of what it built must equal it *)
+  let tsrc = (match tab with Some t -> t | None -> get f "T") in
   let ents = List.map (fun e -> match split_on ':' e with
-      | [k; p; c; v] -> (ios k, ios p, ios c, ios v) | _ -> failwith "BAD-DUMP") (csv (get f "T")) in
+      | [k; p; c; v] -> (ios k, ios p, ios c, ios v) | _ -> failwith "BAD-DUMP") (csv tsrc) in
   let keys = List.map (fun (k,_,_,_) -> z_of_int k) ents in
   let earr = Array.of_list ents in
   let wf = sortedb Z.ltb keys && keys <> [] in
@@ -55,7 +59,8 @@ let trait_line lo hi impl =
     if not (c12_lookup_ok zeq keys zt ri) then oi := false
   done;
   if imiss <> (min hi 65535 - lo + 1) - Hashtbl.length ihits then oi := false;
-  ((if wf then "" else "ILL-FORMED-TABLE ") ^ Printf.sprintf "T=%s H=%s M=%d" (get f "T") (Buffer.contents hits) !misses,
+  if tab <> None && (try get f "T" <> tsrc with _ -> true) then oi := false;
+  ((if wf then "" else "ILL-FORMED-TABLE ") ^ Printf.sprintf "T=%s H=%s M=%d" tsrc (Buffer.contents hits) !misses,
    !oi && wf, !om && wf)
 
 (* ---------- field table: _flu and GeneratedTable ---------- *)
@@ -184,6 +189,7 @@ let () = run_protocol (fun case impl ->
   | op :: rest ->
     (match base_op op, rest with
      | "T", [_; lo; hi] -> trait_line (ios lo) (ios hi) impl
+     | "TS", [tab; lo; hi] -> trait_line ~tab (ios lo) (ios hi) impl
      | "F", [lo; hi] -> field_line (ios lo) (ios hi) impl
      | "M", probes -> msg_line probes impl
      | "RF", probes -> reverse_line true probes impl
